@@ -19,7 +19,7 @@ RULE = ("(a) grammar lines: EVERY operand sequence of length 0..3 over a reduced
         "instructions over all 16x15 base/index pairs x 4 scales x 4 displacements for elf64 (thorough: also elf32 forms "
         "and the byte windows of C08). Oracle: operand count, order and text equal the normal form computed by an "
         "independent string-surgery normaliser (the property's table). Non-trivial = instruction lines whose operands are "
-        "inside the table.")
+        "inside the table. Corpus family: EVERY instruction line (about 347 000) of the real objdump output of the 10 binaries under tests/binary and of the 26 listings under tests/assembly (thorough: also system binaries where present), judged line by line with the same clauses.")
 ASSUMPTIONS = ["operand texts outside the property's table (segment overrides, *indirect, %st(i), {%k1}) are don't-care for C09 (C08/C10 still cover them)"]
 LEVEL_TEXT = ("Every operand sequence of the stated grammar and every real round-trip instruction of the stated product is parsed "
               "by the real parser and compared operand by operand with the table. Exhaustive within bounds.")
@@ -168,7 +168,7 @@ def shards(tier):
     sh += [{"kind": "grammar", "lo": i, "n": 16} for i in range(16)]
     sh += [{"kind": "rt", "cls": 64, "part": i, "nparts": 8} for i in range(8)]
     sh += [{"kind": "rt", "cls": 32, "part": i, "nparts": 2} for i in range(2)]
-    sh += [{"kind": "exotic"}]
+    sh += [{"kind": "exotic"}] + ob.corpus_shards(tier)
     # real objdump output of the C08 byte windows: every line whose operands are inside the table is compared too
     sh += [s for s in ob.window_shards("quick") if tier == "thorough" or s["kind"] == "one" or s.get("b0", 1) % 8 == 0]
     return sh
@@ -181,6 +181,8 @@ def run_shard(shard, tier, h, res, known):
         run_grammar(shard, tier, h, res, known, CLAUSES)
     elif shard["kind"] == "rt":
         run_roundtrip(shard, tier, h, res, known, CLAUSES)
+    elif shard["kind"] == "corpus":
+        ob.run_corpus(shard, h, res, known, ("operands", "crash"))
     elif shard["kind"] == "exotic":
         ob.run_exotic(h, res, known, ("operands", "crash"))
     else:
